@@ -57,6 +57,51 @@ def parse_quoted_then_text(arg):
     return a, arg[i:].strip()
 
 
+def publicise(text, is_item):
+    """Rule R10: visibility normalisation (no runtime meaning): items, fields and inherent fns become `pub`."""
+    m = mask(text)
+    # leading visibility of the item/fn
+    mm = re.match(r"\s*(?:#\[[^\]]*\]\s*)*", m)
+    i = mm.end() if mm else 0
+    vm = re.match(r"pub\s*\([^)]*\)\s*|pub\s+", m[i:])
+    if vm:
+        text = text[:i] + "pub " + text[i + vm.end():]
+    else:
+        text = text[:i] + "pub " + text[i:]
+    if is_item and re.match(r"\s*(?:#\[[^\]]*\]\s*)*pub\s+struct\b", mask(text)):
+        m = mask(text)
+        b = m.find("{")
+        if b >= 0:
+            e = match_close(m, b)
+            inner = text[b + 1:e]
+            im = mask(inner)
+            out, depth, k, start = [], 0, 0, True
+            res = []
+            last = 0
+            # add pub to each field at depth 0: a field starts after '{' or after a ',' at depth 0
+            pos = 0
+            pieces = []
+            d = 0
+            seg_start = 0
+            for idx, ch in enumerate(im):
+                if ch in "([{<":
+                    d += 1
+                elif ch in ")]}>" and not (ch == ">" and idx > 0 and im[idx - 1] in "-="):
+                    d -= 1
+                elif ch == "," and d == 0:
+                    pieces.append(inner[seg_start:idx + 1])
+                    seg_start = idx + 1
+            pieces.append(inner[seg_start:])
+            newp = []
+            for pc in pieces:
+                fm = re.match(r"(\s*)(pub\s*\([^)]*\)\s*|pub\s+)?(\w+\s*:)", pc)
+                if fm:
+                    pc = fm.group(1) + "pub " + pc[fm.end(2) if fm.group(2) else fm.end(1):]
+                newp.append(pc)
+            text = text[:b + 1] + "".join(newp) + text[e:]
+    return text
+
+
 CLAUSE_RE = re.compile(r"^\[([A-Za-z0-9_.,\- ]+)\]\s*(.*)$", re.S)
 
 
@@ -75,6 +120,7 @@ class Group:
         self.trusted = []      # names of assumed items (external_body / assume_specification) collected later
         self.spec_hash = hashlib.sha256()
         self.stub_mode = False
+        self.fn_props = {}
         self.disabled_hints = set(disabled_hints or [])
         self.hint_keys = []
 
@@ -188,6 +234,8 @@ class Group:
         text = self.prep_text(it.text, log)
         for d, arg, dl in subs:
             text = self.apply_replace(d, arg, text, "%s::%s" % (relf, ipath), log)
+        text = publicise(text, True)
+        log.append({"rule": "R10-visibility"})
         self.rewrites += [dict(x, item="%s::%s" % (relf, ipath)) for x in log]
         self.out.emit_src(text, relf, it.line, ipath)
         self.functions.append({"path": "%s :: %s" % (relf, ipath), "kind": "item", "file": relf, "line": it.line,
@@ -258,6 +306,9 @@ class Group:
                 decs.append(arg)
             elif d == "attr":
                 attrs.append(arg)
+            elif d == "props":
+                self.fn_props.setdefault(fn_id, [])
+                self.fn_props[fn_id] += [x.strip() for x in arg.split(",")]
             elif d == "no_decreases":
                 attrs.append("#[verifier::exec_allows_no_decreases_clause]")
             elif d == "drop_body":
@@ -276,6 +327,10 @@ class Group:
                 pass  # handled below, after body split
             else:
                 raise ValueError("%s: unknown fn directive %r" % (tmpl, d))
+        owner = getattr(it, "owner", None)
+        if not (owner is not None and (owner.kind == "trait" or " for " in owner.name)):
+            text = publicise(text, False)
+            log.append({"rule": "R10-visibility"})
         if self.stub_mode:
             drop_body = True
             loops = {}
